@@ -2,7 +2,7 @@
 from .. import conncheck
 
 SERVER = ['eof', 'text', 'ping', 'frag-text', 'frag-cont', 'frag-end', 'close-1000', 'close-3000', 'close-empty', 'silence',
-          'ping-text-close']
+          'ping-text-close', 'close-123', 'ctext', 'cfrag-text']
 APPS = ['close', 'close-3001', 'close-none', 'send_text', 'send_binary', 'send_ping', 'send_pong']
 
 
@@ -36,7 +36,7 @@ class C08(conncheck.ConnCheck):
 
     def configs(self, tier):
         out = []
-        hss = ['hs-ok', 'hs-with-frame', 'hs-deflate']
+        hss = ['hs-ok', 'hs-with-frame', 'hs-deflate', 'hs-deflate-nct']
         if tier == 'quick':
             for app in APPS:
                 out.append({'name': 'q1/%s' % app, 'server': SERVER, 'handshake': hss, 'app': [app], 'depth': 4, 'max_dev': 1})
@@ -58,6 +58,10 @@ class C08(conncheck.ConnCheck):
                         'app': ['close', 'close-3001', 'send_binary'], 'depth': None, 'max_dev': 3})
             out.append({'name': 't/no-autopong', 'server': SERVER, 'handshake': ['hs-ok'], 'app': ['close', 'send_pong'],
                         'depth': None, 'max_dev': 2, 'auto_pong': False})
+        # the ping time-out ends the connection: no Close may appear that the application did not ask for, none twice
+        out.append({'name': 'ping-timeout', 'server': ['eof', 'text', 'pong', 'silence'], 'handshake': ['hs-ok'], 'app': ['close', 'send_text'],
+                    'depth': 2, 'max_dev': 1 if tier == 'quick' else 2, 'connect': {'ping_timeout': 7, 'ping_rate': 0}, 'timers': 'absolute',
+                    'drop': (), 'silent_tail': 'always'})
         for app in APPS:
             out.append({'name': 'tls/%s' % app, 'url': 'wss://example.com/x', 'server': SERVER, 'handshake': ['hs-ok', 'hs-deflate'], 'app': [app],
                         'depth': None if tier == 'thorough' else 3, 'max_dev': 1})
